@@ -25,7 +25,9 @@ PID = "C08"
 CMP = ("==", "!=", "<", "<=", ">", ">=")
 SPELL = {"not": ("not", "!"), "and": ("and", "^"), "or": ("or", "v")}
 CONFUSE = ({"a": "vx", "b": "nota", "c": "orc"}, {"a": "a_v_b", "b": "andy", "c": "v1"})
-LITS = ("True", "False", "None", "0", "1", "'s'", "'v'", "''")
+ESC_LIT = "'q\\' v ^ !'"        # the Python literal 'q\' v ^ !' (escaped quote, then operator spellings)
+ESC_VAL = "q' v ^ !"
+LITS = ("True", "False", "None", "0", "1", "'s'", "'v'", "''", ESC_LIT)
 BOOL_VALUES = (True, False, 0, 1, 2, "", "s", None, [], [0])
 CMP_VALUES = (0, 1, 2)
 
@@ -275,7 +277,7 @@ def only_extra_middle_reads(exp_reads, got_reads, middles):
 
 def classify(t, expr, exp, got, exp_reads, got_reads):
     """Root-cause category of a disagreement (for known-finding matching)."""
-    if any(q in expr for q in ("'v'", "'^'", "'!'")):
+    if any(q in expr for q in ("'v'", "'^'", "'!'", "\\'")):
         return "operator-rewrite-inside-string-literal"
     if has_chain(t) and exp == got and only_extra_middle_reads(exp_reads, got_reads,
                                                                chain_middles(t)):
@@ -286,6 +288,14 @@ def classify(t, expr, exp, got, exp_reads, got_reads):
 
 
 # -- seam (a) -------------------------------------------------------------------------------------
+
+def _has_atom(t, lit):
+    if t[0] == "atom":
+        return t[1] == lit
+    if t[0] == "cmp":
+        return any(_has_atom(x, lit) for x in t[1])
+    return any(_has_atom(x, lit) for x in t[1:] if isinstance(x, tuple))
+
 
 def valuations(names, t):
     if not names:
@@ -304,9 +314,10 @@ def valuations(names, t):
             walk(x[2])
     walk(t)
     doms = []
+    esc = (ESC_VAL,) if _has_atom(t, ESC_LIT) else ()
     for nm in names:
         if nm in cmp_names:
-            doms.append(CMP_VALUES + (("s",) if len(names) <= 2 else ()))
+            doms.append(CMP_VALUES + (("s",) if len(names) <= 2 else ()) + esc)
         elif len(names) <= 2:
             doms.append(BOOL_VALUES)
         else:
